@@ -158,7 +158,7 @@ def path_head(rng):
     """One request for the compared request path (component c02.path): every stage's deciding input is in the menu."""
     m = rng.choice([b"GET", b"GET", b"GET", b"HEAD", b"HEAD", b"POST", b"PUT", b"OPTIONS", b"OPTIONS", b"OPTIONS", b"DELETE", b"TRACE", b"get", b"G@T"])
     t = rng.choice([b"/", b"/a", b"/a/", b"/a.", b"/a?x=1&y", b"/./a", b"/../x", b"//a", b"/a/../b", b"/%2e%2e/x", b"/%2E/", b"/a%", b"/%ff", b"/a%2fb", b"*",
-                    b"/a?", b"/?", b"/a b", b"/./cors_fail", b"/./cors_options", b"a", b"http://x/a", b"/" + b"a" * 200])
+                    b"/a?", b"/?", b"/a b", b"/./cors_fail", b"/./cors_options", b"a", b"http://x/a", b"/" + b"a" * 200, b"/x.\xc3\xa9", b"/\xc3\xa9/"])
     v = rng.choice([b"HTTP/1.1"] * 6 + [b"HTTP/1.0", b"HTTP/1.0", b"HTTP/0.9", b"HTTP/2", b"HTTP/1.2"])
     hs = []
     if m == b"OPTIONS" and rng.random() < 0.6:
@@ -211,7 +211,9 @@ def valid_head(rng, extra=()):
                     b"/stream/s70000.bin", b"/post", b"/./h", b"/../x", b"//h", b"/%2e%2e/%2e%2e/etc/passwd", b"/a%", b"/%ff", b"/a.",
                     b"*", b"/" + b"a" * 300, b"/t2.html", b"/t3.html", b"/c1.html", b"/c2.html", b"/c3.html", b"/a1.html", b"/a2.html",
                     b"/a3.html", b"/h1.html", b"/h2.html", b"/d1.html", b"/u1.html", b"/odd.name.tar.gz", b"/noext", b"/x.%C3%A9", b"/f.txt%00",
-                    b"/f.txt.", b"/f.%ff", b"/nothing-here.html", b"/stream/s200000.bin", b"/whoami"])
+                    b"/f.txt.", b"/f.%ff", b"/nothing-here.html", b"/stream/s200000.bin", b"/whoami",
+                    # raw (not percent-encoded) UTF-8 in the path and in the "extension" get_mime / the file-type Present lookup see
+                    b"/x.\xc3\xa9", b"/\xc3\xa9.html", b"/f.\xe2\x82\xac", b"/a.b", b"/.x", b"/stream/s10.\xc3\xa9", b"/x.\xc3\xa9?q=\xc3\xa9"])
     v = rng.choice([b"HTTP/1.1", b"HTTP/1.1", b"HTTP/1.0", b"HTTP/0.9", b"HTTP/2", b"HTTP/3"])
     hs = [(b"Host", rng.choice([b"localhost", b"localhost:8080", b"b.example", b"alias.example", b"alias.example.", b"unknown",
                                 b"[::1]", b"127.0.0.1:80", b"LOCALHOST", b"a b", b"", b"x@y:1:2", b"lim.example", b"lim.example"]))]
